@@ -1,0 +1,39 @@
+//go:build verif
+
+package eio
+
+import "sort"
+
+// VerifSession is one entry of the server's socket store as seen by the verification harness.
+type VerifSession struct {
+	SID       string
+	Transport string
+}
+
+// VerifSessions returns the live sessions (store entries), sorted by sid.
+func (s *Server) VerifSessions() []VerifSession {
+	sockets := s.store.getAll()
+	res := make([]VerifSession, 0, len(sockets))
+	for _, socket := range sockets {
+		res = append(res, VerifSession{SID: socket.id, Transport: socket.TransportName()})
+	}
+	sort.Slice(res, func(i, j int) bool { return res[i].SID < res[j].SID })
+	return res
+}
+
+// VerifGenerateSID runs the server's sid generation (id generator retried against the store).
+func (s *Server) VerifGenerateSID() (string, error) { return s.generateSID() }
+
+// VerifBase64IDSeq returns the sequence number the next generated id will carry.
+func VerifBase64IDSeq() uint32 {
+	base64IDMu.Lock()
+	defer base64IDMu.Unlock()
+	return base64IDSeq
+}
+
+// VerifSetBase64IDSeq sets the sequence number of the id generator.
+func VerifSetBase64IDSeq(seq uint32) {
+	base64IDMu.Lock()
+	defer base64IDMu.Unlock()
+	base64IDSeq = seq
+}
